@@ -353,9 +353,11 @@ def run(rep: Report, prog: Program, tier: str) -> None:
             if nm == "self._track.stop":
                 return ["end-signal"]
         return []
-    act = EventsDomain(prog, ev_track).run(rstop)
-    bad = [st for st, _n in act.returns if "end-signal" not in st.events and not st.has_guard("self._track is not None", False) and not st.has_guard("self._track is None", True)
-           and not st.has_guard("self._track", False)]
+    dom = EventsDomain(prog, ev_track)
+    # a path on which there is no track has nothing to signal (path-sensitive: recorded as an event so that it survives joins)
+    dom.on_refine = lambda text, truth: ["end-signal"] if (text, truth) in (("self._track is not None", False), ("self._track is None", True), ("self._track", False)) else []
+    act = dom.run(rstop)
+    bad = [st for st, _n in act.returns if "end-signal" not in st.events]
     sd = prog.func("rtcrtpreceiver.RTCRtpReceiver.__stop_decoder")
     feeds = any(isinstance(n, ast.Call) and unparse(n.func).endswith("__decoder_queue.put") and n.args and isinstance(n.args[0], ast.Constant) and n.args[0].value is None
                 for n in walk_no_nested(sd.node))
